@@ -254,6 +254,9 @@ func (e *Enc) eval(sx *Sx, env *evalEnv) tv {
 			return tv{Val{"0", "Int"}, nil}
 		}
 		addr := app("elem", app("sarr", x.v.T), app("+", app("soff", x.v.T), i.v.T))
+		if srt := e.sortOf(st.Elem()); (srt == "Ref" || srt == "Slice") && len(env.bound) == 0 {
+			e.loadedRefFacts(env.heap, cellKey(st.Elem()), srt, addr)
+		}
 		return tv{Val{e.load(env.heap, addr, nil, st.Elem()), e.sortOf(st.Elem())}, st.Elem()}
 	case "deref":
 		x := e.eval(args[0], env)
@@ -297,9 +300,14 @@ func (e *Enc) eval(sx *Sx, env *evalEnv) tv {
 			n.names[k] = v
 		}
 		var bs []string
+		n.bound = map[string]bool{}
+		for k := range env.bound {
+			n.bound[k] = true
+		}
 		for _, b := range args[0].List {
 			nm, srt := b.List[0].Atom, b.List[1].String()
 			n.names[nm] = binding{Val{nm, srt}, nil}
+			n.bound[nm] = true
 			bs = append(bs, fmt.Sprintf("(%s %s)", nm, srt))
 		}
 		body := e.eval(args[1], &n)
@@ -516,6 +524,9 @@ func (e *Enc) fieldOf(base tv, field string, env *evalEnv) tv {
 		case *types.Array:
 			return tv{Val{addr, "Ref"}, types.NewPointer(ft)}
 		}
+		if srt := e.sortOf(ft); (srt == "Ref" || srt == "Slice") && len(env.bound) == 0 {
+			e.loadedRefFacts(env.heap, e.w.fieldKey(name, st, i), srt, addr)
+		}
 		return tv{Val{e.loadField(env.heap, base.v.T, name, st, i), e.sortOf(ft)}, ft}
 	}
 	// promoted field through an embedded struct
@@ -650,9 +661,11 @@ func (e *Enc) evalClause(ct *Contract, sx *Sx, env *evalEnv) (string, bool) {
 		return e.evalBool(sx, env), true
 	}
 	n := len(e.unsupported)
+	na := len(e.asserts)
 	t := e.evalBool(sx, env)
 	if len(e.unsupported) > n {
 		e.unsupported = e.unsupported[:n]
+		e.asserts = e.asserts[:na] // side facts emitted while evaluating the dropped clause go with it
 		return "true", false
 	}
 	return t, true
